@@ -31,6 +31,7 @@ Proof.
   - rewrite names_path_asis by assumption. reflexivity.
   - rewrite name_path_asis by (assumption || reflexivity). reflexivity.
   - destruct gw; try reflexivity. rewrite name_path_asis by assumption. reflexivity.
+  - rewrite name_path_asis by assumption. reflexivity.
 Qed.
 
 Theorem record_roundtrip_asis sty c fs chk vs text rest fw tw :
@@ -170,7 +171,7 @@ Qed.
 Theorem parse_field_encodable c f st raw st' v :
   parse_field c f st = Ok (raw, st') -> ctor_field f raw = Ok v -> val_encodable f v.
 Proof.
-  destruct f as [maxv| |tokmax ctormax ne| | |sc| |v6| | | | | |k| |maxc| |en| | | | |bmax| | | |ipsec| | | | | | | | |]; cbn [parse_field]; intros H Hc.
+  destruct f as [maxv| |tokmax ctormax ne| | |sc| |v6| | | | | |k| |maxc| |en| | | | |bmax| | | |ipsec| | | | | | | | | |]; cbn [parse_field]; intros H Hc.
   - unfold get_uint, as_uint in H.
     destruct (get_unescaped st) as [[t s1]| |]; cbn [bind fst snd] in H; try discriminate.
     destruct (as_int t 10) as [z| |]; cbn [bind fst snd] in H; try discriminate.
@@ -194,17 +195,17 @@ Proof.
   - destruct v; exact Logic.I.
   - destruct v; exact Logic.I.
   - destruct v; exact Logic.I.
-  - destruct raw as [z0|b|n0|l0|w0|ns0|g0 a0 gw0|it0|kf0 kp0 ka0 kat0 kk0]; cbn [ctor_field] in Hc; try (inversion Hc; subst; exact Logic.I).
+  - destruct raw as [z0|b|n0|l0|w0|ns0|g0 a0 gw0|it0|sp0 sn0 sps0|kf0 kp0 ka0 kat0 kk0]; cbn [ctor_field] in Hc; try (inversion Hc; subst; exact Logic.I).
     destruct (zlen b >? 255) eqn:E; try discriminate. inversion Hc; subst. cbn [val_encodable]. lia.
   - destruct (get_string st 0) as [[t s1]| |]; cbn [bind fst snd] in H; try discriminate. inversion H; subst.
     cbn [ctor_field] in Hc.
     destruct (alg_from_text t) as [z| |] eqn:E; cbn [bind] in Hc; try discriminate. inversion Hc; subst.
     cbn [val_encodable]. eapply alg_from_text_range; eauto.
-  - destruct raw as [z0|b|n0|l0|w0|ns0|g0 a0 gw0|it0|kf0 kp0 ka0 kat0 kk0]; cbn [ctor_field] in Hc; try (inversion Hc; subst; exact Logic.I).
+  - destruct raw as [z0|b|n0|l0|w0|ns0|g0 a0 gw0|it0|sp0 sn0 sps0|kf0 kp0 ka0 kat0 kk0]; cbn [ctor_field] in Hc; try (inversion Hc; subst; exact Logic.I).
     destruct ((zlen b >? 255) || is_nil b || negb (forallb is_alnum b)) eqn:E; try discriminate.
     inversion Hc; subst. cbn [val_encodable]. lia.
   - destruct v; exact Logic.I.
-  - destruct raw as [z0|b|n0|l0|w0|ns0|g0 a0 gw0|it0|kf0 kp0 ka0 kat0 kk0]; cbn [ctor_field] in Hc; try (inversion Hc; subst; exact Logic.I).
+  - destruct raw as [z0|b|n0|l0|w0|ns0|g0 a0 gw0|it0|sp0 sn0 sps0|kf0 kp0 ka0 kat0 kk0]; cbn [ctor_field] in Hc; try (inversion Hc; subst; exact Logic.I).
     destruct (zlen b >? 255) eqn:E; try discriminate. inversion Hc; subst. cbn [val_encodable]. lia.
   - destruct (get_string st 0) as [[t s1]| |]; cbn [bind fst snd] in H; try discriminate.
     destruct (enum_parse k t) as [z| |]; cbn [bind fst snd] in H; try discriminate. inversion H; subst.
@@ -226,15 +227,15 @@ Proof.
     destruct (as_int t 8) as [z| |]; cbn [bind fst snd] in H; try discriminate.
     destruct ((z <? 0) || (z >? max16)) eqn:E; cbn [bind fst snd] in H; try discriminate.
     inversion H; subst. cbn [ctor_field] in Hc. inversion Hc; subst. cbn [val_encodable]. unfold max16 in E. lia.
-  - destruct raw as [z0|b|n0|l0|w0|ns0|g0 a0 gw0|it0|kf0 kp0 ka0 kat0 kk0]; cbn [ctor_field] in Hc; try (inversion Hc; subst; exact Logic.I).
+  - destruct raw as [z0|b|n0|l0|w0|ns0|g0 a0 gw0|it0|sp0 sn0 sps0|kf0 kp0 ka0 kat0 kk0]; cbn [ctor_field] in Hc; try (inversion Hc; subst; exact Logic.I).
     destruct (zlen b >? 255) eqn:E; try discriminate. inversion Hc; subst. cbn [val_encodable]. lia.
-  - destruct raw as [z0|b|n0|l0|w0|ns0|g0 a0 gw0|it0|kf0 kp0 ka0 kat0 kk0]; cbn [ctor_field] in Hc; try (inversion Hc; subst; exact Logic.I).
+  - destruct raw as [z0|b|n0|l0|w0|ns0|g0 a0 gw0|it0|sp0 sn0 sps0|kf0 kp0 ka0 kat0 kk0]; cbn [ctor_field] in Hc; try (inversion Hc; subst; exact Logic.I).
     destruct (zlen b >? 255) eqn:E; try discriminate. inversion Hc; subst. cbn [val_encodable]. lia.
-  - destruct raw as [z0|b|n0|l0|w0|ns0|g0 a0 gw0|it0|kf0 kp0 ka0 kat0 kk0]; cbn [ctor_field] in Hc; try (inversion Hc; subst; exact Logic.I).
+  - destruct raw as [z0|b|n0|l0|w0|ns0|g0 a0 gw0|it0|sp0 sn0 sps0|kf0 kp0 ka0 kat0 kk0]; cbn [ctor_field] in Hc; try (inversion Hc; subst; exact Logic.I).
     destruct (zlen b >? bmax) eqn:E; try discriminate. inversion Hc; subst. cbn [val_encodable]. lia.
   - destruct v; exact Logic.I.
   - destruct v; exact Logic.I.
-  - destruct raw as [z0|b|n0|l0|w0|ns0|g0 a0 gw0|it0|kf0 kp0 ka0 kat0 kk0]; cbn [ctor_field] in Hc; try (inversion Hc; subst; exact Logic.I).
+  - destruct raw as [z0|b|n0|l0|w0|ns0|g0 a0 gw0|it0|sp0 sn0 sps0|kf0 kp0 ka0 kat0 kk0]; cbn [ctor_field] in Hc; try (inversion Hc; subst; exact Logic.I).
     destruct (zlen b >? 65535) eqn:E; try discriminate. inversion Hc; subst. cbn [val_encodable]. lia.
   - destruct v; exact Logic.I.
   - destruct v; exact Logic.I.
@@ -264,6 +265,7 @@ Proof.
     destruct (negb (is_nil t) && forallb is_decimal t); try discriminate. inversion H; subst.
     cbn [ctor_field] in Hc. destruct ((dec_value t 0 <? 0) || (dec_value t 0 >? 255)) eqn:E; try discriminate.
     inversion Hc; subst. cbn [val_encodable]. lia.
+  - destruct v; exact Logic.I.
   - destruct v; exact Logic.I.
   - destruct v; exact Logic.I.
   - (* FKeyRec *)
